@@ -1,5 +1,5 @@
 """C05 Completions consumed exactly once, in order, wrap-safe; internal ones ignored."""
-from .kernel import ExprBuilder, Loc, access_path, const_val, subexprs
+from .kernel import ExprBuilder, Loc, access_path, const_val, subexprs, specialise_value
 from . import families as fam
 
 EXPLANATION = (
@@ -9,9 +9,8 @@ EXPLANATION = (
     "no entry read is reachable after it; (R3) per loop iteration exactly one process call and one counter "
     "advance, index = head & (entries_len-1), the body is entered only on an edge excluding head == tail with "
     "tail coming from an Acquire load; (R4) the integer->pointer conversion in process is dominated by the "
-    "F_SKIP==0 edge and by the otherwise-edge of the switch on user_data whose explicit arms are the reserved "
-    "values, and every explicit arm returns without conversion; (R5) the reserved values written by bookkeeping "
-    "submitters (+0) equal the explicit arms. Kernel publication order and delivery (NODROP) are not decided here."
+    "F_SKIP==0 edge, and with the CFG specialised to user_data == v for each reserved value v (decided by value: match arm, range pattern or if-chain alike) no conversion/update is reachable while operation tags do reach it; "
+    "(R5) the reserved values are those written by bookkeeping submitters (+0 for no user_data) and lie below the first page so they cannot collide with an operation pointer. Kernel publication order and delivery (NODROP) are not decided here."
 )
 NOT_DECIDED = "kernel publication order; delivery of every CQE (needs IORING_FEAT_NODROP, checked under C18.R3)"
 ASSUMPTIONS = ["the kernel publishes CQEs in [head, tail) before the tail store (Acquire load pairs with it)"]
@@ -245,7 +244,7 @@ def user_data_switch(f):
     return None, None
 
 
-def r4_filter_first(r, facts):
+def r4_filter_first(r, facts, only=None):
     f = facts.fn(PROCESS)
     eb = ExprBuilder(f)
     conv = conversions(f)
@@ -275,26 +274,43 @@ def r4_filter_first(r, facts):
         r.inst('F_SKIP==0 edge bb%d->bb%d' % skip_edge, f.where(f.term_loc(skip_edge[0])))
         for c in conv:
             r.require(f.edge_dominates(skip_edge, c), 'Completion::process/skip', 'pointer formed from user_data without the F_SKIP==0 test dominating it', f.where(c))
-    # (b) reserved values
-    b, si = user_data_switch(f)
-    if not r.require(si is not None, 'Completion::process/reserved', 'switch on completion user_data not found (unrecognised form)', f.where()):
-        return
-    explicit = set(si['values'].keys())
-    r.inst('user_data switch arms %s' % sorted(explicit), f.where(f.term_loc(b)))
-    other_edge = (b, si['otherwise'])
-    rets = f.returns()
+    # (b) reserved values: decided by value, not by the syntactic form of the match (arm, range pattern, if-chain)
+    sinks = conv + [l for l, t in f.calls_to(lambda t: '::update' in (t.get('callee') or ''))]
     for c in conv:
         r.inst('conversion', f.where(c))
-        r.require(f.edge_dominates(other_edge, c), 'Completion::process/reserved', 'pointer formed from user_data on a path that did not take the non-reserved (otherwise) arm', f.where(c))
-    for v, tgt in si['values'].items():
-        if tgt == si['otherwise']:
-            r.bad('Completion::process/reserved', 'reserved user_data %d falls into the operation path' % v, f.where(f.term_loc(b)))
+    reserved = reserved_values(r, facts)
+    subj = lambda e: fam.last_field(e) == 'user_data'
+    ndec = 0
+    for v in sorted(reserved):
+        if only is not None and v not in only:
             continue
-        hit = f.forward_paths_hit([Loc(tgt, 0)], conv + [l for l, t in f.calls_to(lambda t: '::update' in (t.get('callee') or ''))])
-        r.require(hit is None, 'Completion::process/reserved:%d' % v, 'the arm for reserved user_data %d reaches the pointer conversion/update' % v, f.where(hit[0]) if hit else '')
-    # the conversion consumes user_data itself
+        g, decided = specialise_value(f, subj, v, eb)
+        ndec = max(ndec, len(decided))
+        hit = g.forward_paths_hit([Loc(0, 0)], sinks)
+        r.inst('user_data == %d: %d switch(es) decided, sinks %s' % (v, len(decided), 'unreachable' if hit is None else 'REACHABLE'), f.where())
+        r.require(hit is None, 'Completion::process/reserved:%d' % v,
+                  'a completion with the reserved user_data %d (%s) reaches the pointer conversion / State::update: a bookkeeping completion is treated as belonging to an operation' % (v, reserved[v]), f.where(hit[0]) if hit else '')
+    r.require(ndec >= 1, 'Completion::process/reserved', 'no branch in process is decided by the completion user_data (unrecognised form)', f.where())
+    # positive control: an operation tag (aligned pointer, with and without the multishot tag bit) does reach the conversion
+    for v in (0x1000, 0x1002):
+        g, decided = specialise_value(f, subj, v, eb)
+        hit = g.forward_paths_hit([Loc(0, 0)], conv)
+        r.require(hit is not None, 'Completion::process/ops-filtered', 'an operation completion (user_data %#x) never reaches the pointer conversion' % v, f.where())
     r.floor(3)
-    return explicit
+    return set(reserved)
+
+
+def reserved_values(r, facts):
+    """reserved user_data values -> who writes them (bookkeeping submitters; 0 = no user_data set)"""
+    written = {0: 'no user_data set'}
+    for g, loc, e in bookkeeping_user_data(facts):
+        if e[0] == 'const' and e[1] is not None:
+            written.setdefault(e[1], g.path.split('::{')[0].split('::')[-1])
+            if r is not None:
+                r.inst('%s writes user_data=%s' % (g.path, e), g.where(loc))
+        elif r is not None:
+            r.inst('%s writes user_data=<%s>' % (g.path, e[0]), g.where(loc))
+    return written
 
 
 def bookkeeping_user_data(facts):
@@ -314,22 +330,13 @@ def bookkeeping_user_data(facts):
 
 
 def r5_reserved_table(r, facts):
+    """the table side of R4: which values are reserved, who writes them, and that operation tags cannot collide"""
     f = facts.fn(PROCESS)
-    b, si = user_data_switch(f)
-    if not r.require(si is not None, 'Completion::process', 'switch on user_data not found', f.where()):
-        return
-    explicit = set(si['values'].keys())
-    written = {0}
-    n = 0
-    for g, loc, e in bookkeeping_user_data(facts):
-        n += 1
-        if e[0] == 'const' and e[1] is not None:
-            written.add(e[1])
-            r.inst('%s writes user_data=%s' % (g.path, e), g.where(loc))
-        else:
-            r.inst('%s writes user_data=<%s>' % (g.path, e[0]), g.where(loc))
-    r.require(written == explicit, 'reserved-table', 'reserved user_data written by bookkeeping submitters %s != explicit arms in process %s' % (sorted(written), sorted(explicit)), f.where(f.term_loc(b)))
-    # operation tags cannot collide with the reserved values: pointer|tag with align >= 4
+    written = reserved_values(r, facts)
+    r.require(len(written) >= 4, 'reserved-table', 'expected the four reserved user_data values (none, wake, cancel, close) to be written by bookkeeping submitters, found %s' % sorted(written), f.where())
+    # operation tags are pointer|tag with alignment >= 4: every reserved value must be below the smallest
+    # address a state allocation can have and must not look like a tagged null pointer of an operation
+    r.require(max(written) < 4096, 'reserved-table/range', 'reserved user_data %d is not below the first page: it may collide with an operation pointer' % max(written), f.where())
     r.floor(3, 'user_data writers')
 
 
